@@ -375,7 +375,9 @@ Fixpoint process (p : planner) (c : pctx) (st : pst) {struct p} : res (select * 
     do (main, st1, fpsel') <- process fpsel c st;
     let '(i, st2) := next_id st1 in
     let id := "subsel_" ++ string_of_N i in
-    let req := and_where [In (Id "fingerprint") [WRef id main]]
+    (* since the repair of label-filter-series-scan-unbounded the index read carries the date and type bounds of every other
+       time_series read *)
+    let req := and_where [In (Id "fingerprint") [WRef id main]; Ge (Id "date") (format_from_date c); get_types c]
                  (set_from (Id (t_ts c)) (set_cols [Id "fingerprint"] (with_ [(id, main)] empty_select))) in
     do cond <- lf_cond (Some (fun s => Fn "JSONExtractString" [Id "labels"; QRaw s])) f;
     Some (and_where [cond] req, st2, PSimpleLabelFilter f fpsel')
